@@ -692,4 +692,314 @@ theorem readExtended_encode (hne : sep ≠ hd) {b : Γ} (ts : List (Tape Γ))
 
 end Decode
 
+/-! ### the simulation visits the encodings of the native configurations -/
+
+/-- One `next()` of two generators in lock step. -/
+def ResumeRel {S S' Y Y' Z : Type} (R : S → S' → Prop) (f : Y → Z) (g : Y' → Z) :
+    Resume S Y → Resume S' Y' → Prop
+  | .ret, .ret => True
+  | .raise e, .raise e' => e = e'
+  | .yield y t, .yield y' t' => f y = g y' ∧ R t t'
+  | _, _ => False
+
+/-- Lock-step simulation of two observed generators. -/
+theorem genRun_sim {S S' Y Y' Z : Type} (r : S → Resume S Y) (r' : S' → Resume S' Y')
+    (R : S → S' → Prop) (f : Y → Z) (g : Y' → Z)
+    (h : ∀ s s', R s s' → ResumeRel R f g (r s) (r' s')) :
+    ∀ (n : Nat) (s : S) (s' : S'), R s s' →
+      (genRun r n s).1.map f = (genRun r' n s').1.map g ∧ (genRun r n s).2 = (genRun r' n s').2 := by
+  intro n
+  induction n with
+  | zero => intro s s' _; simp [genRun]
+  | succ n ih =>
+    intro s s' hR
+    have hh := h s s' hR
+    simp only [genRun]
+    cases hr : r s with
+    | ret =>
+      cases hr' : r' s' with
+      | ret => simp
+      | raise e' => rw [hr, hr'] at hh; exact hh.elim
+      | yield y' t' => rw [hr, hr'] at hh; exact hh.elim
+    | raise e =>
+      cases hr' : r' s' with
+      | ret => rw [hr, hr'] at hh; exact hh.elim
+      | raise e' => rw [hr, hr'] at hh; simp only [ResumeRel] at hh; simp [hh]
+      | yield y' t' => rw [hr, hr'] at hh; exact hh.elim
+    | yield y t =>
+      cases hr' : r' s' with
+      | ret => rw [hr, hr'] at hh; exact hh.elim
+      | raise e' => rw [hr, hr'] at hh; exact hh.elim
+      | yield y' t' =>
+        rw [hr, hr'] at hh
+        simp only [ResumeRel] at hh
+        obtain ⟨h1, h2⟩ := ih t t' hh.2
+        simp [hh.1, h1, h2]
+
+/-- Domain of C17: a valid machine with at least one tape whose tape alphabet avoids the two
+marks of the extended tape. -/
+structure SimDomain (M : MNTM σ Γ) (hd sep : Γ) : Prop where
+  valid : M.validate = .ok ()
+  ntapes : 1 ≤ M.nTapes
+  marks : sep ≠ hd
+  alphabet : ∀ a ∈ M.tapeSyms, a ≠ hd ∧ a ≠ sep
+
+/-- A native configuration the simulation can represent. -/
+structure GoodCfg (M : MNTM σ Γ) (hd sep : Γ) (c : MCfg σ Γ) : Prop where
+  len : c.tapes.length = M.nTapes
+  tapes : ∀ t ∈ c.tapes, GoodTape hd sep M.blank t
+
+/-- State and extended tape of a queue entry (the recorded head index plays no role). -/
+def strip (e : SimEntry σ Γ) : σ × List Γ := (e.1, e.2.1)
+
+/-- The queue entry standing for a native configuration. -/
+def encS (hd sep : Γ) (c : MCfg σ Γ) : σ × List Γ := (c.state, encode hd sep c.tapes)
+
+namespace MNTM
+
+/-- Successors in the order of the transition list (the order of the simulation's queue). -/
+def succL (M : MNTM σ Γ) (c : MCfg σ Γ) : List (MCfg σ Γ) :=
+  ((M.getTransition c.state c.tapes).getD []).map (apply c.tapes)
+
+def accF (M : MNTM σ Γ) (c : MCfg σ Γ) : Bool := decide (c.state ∈ M.finals)
+
+theorem mem_succ_iff_succL (M : MNTM σ Γ) (c x : MCfg σ Γ) : x ∈ M.succ c ↔ x ∈ M.succL c := by
+  unfold succ succL children
+  cases M.getTransition c.state c.tapes with
+  | none => simp
+  | some l =>
+    cases l with
+    | nil => simp
+    | cons t0 ts =>
+      simp only [Option.getD_some, List.mem_append, List.mem_map, List.mem_cons, List.not_mem_nil,
+        or_false]
+      constructor
+      · rintro (⟨t, ht, rfl⟩ | rfl)
+        · exact ⟨t, Or.inr ht, rfl⟩
+        · exact ⟨t0, Or.inl rfl, rfl⟩
+      · rintro ⟨t, rfl | ht, rfl⟩
+        · exact Or.inr rfl
+        · exact Or.inl ⟨t, ht, rfl⟩
+
+theorem alookup_mem' {κ β : Type} [DecidableEq κ] {k : κ} {v : β} {l : List (κ × β)}
+    (h : alookup k l = some v) : (k, v) ∈ l := by
+  induction l with
+  | nil => cases h
+  | cons kv t ih =>
+    simp only [alookup] at h
+    split at h
+    · rename_i heq
+      simp only [Option.some.injEq] at h
+      subst h; subst heq
+      simp
+    · exact List.mem_cons_of_mem _ (ih h)
+
+theorem getTransition_mem (M : MNTM σ Γ) {q : σ} {tapes : List (Tape Γ)}
+    {l : List (σ × List (Γ × Dir))} (h : M.getTransition q tapes = some l) :
+    ∃ kv ∈ M.trans, ∃ e ∈ kv.2, e.2 = l := by
+  unfold getTransition at h
+  cases hq : alookup q M.trans with
+  | none => rw [hq] at h; cases h
+  | some row =>
+    rw [hq] at h
+    exact ⟨(q, row), alookup_mem' hq, (readHeads tapes, l), alookup_mem' h, rfl⟩
+
+variable (hd sep : Γ)
+
+theorem goodCfg_succL (M : MNTM σ Γ) (dom : SimDomain M hd sep) {c : MCfg σ Γ}
+    (hc : GoodCfg M hd sep c) : ∀ x ∈ M.succL c, GoodCfg M hd sep x := by
+  intro x hx
+  unfold succL at hx
+  cases hg : M.getTransition c.state c.tapes with
+  | none => rw [hg] at hx; simp at hx
+  | some l =>
+    rw [hg] at hx
+    simp only [Option.getD_some, List.mem_map] at hx
+    obtain ⟨t, ht, rfl⟩ := hx
+    obtain ⟨kv, hkv, e, he, rfl⟩ := M.getTransition_mem hg
+    have hlen := ((M.validate_tapes dom.valid) kv hkv e he).2 t ht
+    have hsym := (M.validate_symbols dom.valid).2 kv hkv e he t ht
+    have hb := dom.alphabet _ (M.validate_symbols dom.valid).1
+    refine ⟨?_, ?_⟩
+    · simp [apply, hlen, hc.len]
+    · intro tp htp
+      simp only [apply] at htp
+      obtain ⟨i, hi, rfl⟩ := List.getElem_of_mem htp
+      simp only [List.getElem_zipWith]
+      simp only [List.length_zipWith] at hi
+      exact (hc.tapes _ (List.getElem_mem _)).step hd sep M.blank hb _
+        (dom.alphabet _ (hsym _ (List.getElem_mem _))) _
+
+theorem goodCfg_init (M : MNTM σ Γ) (dom : SimDomain M hd sep) (w : List Γ)
+    (hw : Clean hd sep w) : GoodCfg M hd sep (M.initCfg w) := by
+  have hb := dom.alphabet _ (M.validate_symbols dom.valid).1
+  refine ⟨?_, ?_⟩
+  · have := dom.ntapes
+    simp [initCfg, initTapes]; omega
+  · intro t ht
+    simp only [initCfg, initTapes, List.mem_cons, List.mem_replicate] at ht
+    rcases ht with rfl | ⟨_, rfl⟩
+    · refine ⟨Tape.init_wf _ _ _, rfl, ?_⟩
+      intro x hx
+      simp only [Tape.init, List.mem_append, List.mem_replicate] at hx
+      rcases hx with h | ⟨_, rfl⟩
+      · exact hw x h
+      · exact hb
+    · refine ⟨Tape.init_wf _ _ _, rfl, ?_⟩
+      intro x hx
+      simp only [Tape.init, List.mem_append, List.mem_replicate, List.mem_singleton] at hx
+      rcases hx with rfl | ⟨_, rfl⟩ <;> exact hb
+
+theorem spliceEach_encode (M : MNTM σ Γ) (dom : SimDomain M hd sep) {c : MCfg σ Γ}
+    (hc : GoodCfg M hd sep c) :
+    ∀ (l : List (σ × List (Γ × Dir))) (acc : List (SimEntry σ Γ)),
+      (∀ t ∈ l, t.2.length = M.nTapes ∧ ∀ m ∈ t.2, m.1 ∈ M.tapeSyms) →
+      ∃ kids, spliceEach hd sep M.blank (encode hd sep c.tapes) l acc = .ok (some (acc ++ kids)) ∧
+        kids.map strip = (l.map (apply c.tapes)).map (encS hd sep) := by
+  have hb := dom.alphabet _ (M.validate_symbols dom.valid).1
+  intro l
+  induction l with
+  | nil => intro acc _; exact ⟨[], by simp [spliceEach], rfl⟩
+  | cons t ts ih =>
+    intro acc hl
+    have ht := hl t (by simp)
+    have hsp := spliceAll_encode hd sep M.blank dom.marks hb t.1 t.2 c.tapes
+      (by rw [ht.1, hc.len]) (fun m hm => dom.alphabet _ (ht.2 m hm)) hc.tapes
+    obtain ⟨kids, hk1, hk2⟩ := ih (acc ++ [(t.1, encode hd sep (stepTapes t.2 c.tapes),
+      (((encode hd sep (stepTapes t.2 c.tapes)).length : Nat) : Int) - 1)]) (fun x hx => hl x (by simp [hx]))
+    refine ⟨(t.1, encode hd sep (stepTapes t.2 c.tapes),
+      (((encode hd sep (stepTapes t.2 c.tapes)).length : Nat) : Int) - 1) :: kids, ?_, ?_⟩
+    · unfold spliceEach
+      have : (t : σ × List (Γ × Dir)) = (t.1, t.2) := rfl
+      rw [this, hsp]
+      simp only
+      rw [hk1]
+      simp
+    · simp only [List.map_cons, hk2]
+      rfl
+
+/-- Processing the entry of a representable configuration: `return` on a final state,
+otherwise exactly the entries of its successors in list order; never an exception. -/
+theorem simProcess_good (M : MNTM σ Γ) (dom : SimDomain M hd sep) {c : MCfg σ Γ}
+    (hc : GoodCfg M hd sep c) (e : SimEntry σ Γ) (he : strip e = encS hd sep c) :
+    (c.state ∈ M.finals ∧ simProcess M hd sep e = .ok (some none)) ∨
+    (c.state ∉ M.finals ∧ ∃ kids, simProcess M hd sep e = .ok (some (some kids)) ∧
+      kids.map strip = (M.succL c).map (encS hd sep)) := by
+  have he1 : e.1 = c.state := congrArg Prod.fst he
+  have he2 : e.2.1 = encode hd sep c.tapes := congrArg Prod.snd he
+  unfold simProcess
+  rw [he1, he2]
+  by_cases hf : c.state ∈ M.finals
+  · left; exact ⟨hf, by simp [hf]⟩
+  · right
+    refine ⟨hf, ?_⟩
+    simp only [hf, if_false]
+    rw [readExtended_encode hd sep dom.marks c.tapes hc.tapes]
+    simp only
+    have hlook : (alookup c.state M.trans).bind (alookup (c.tapes.map Tape.read)) =
+        M.getTransition c.state c.tapes := by
+      unfold getTransition readHeads
+      cases alookup c.state M.trans <;> rfl
+    rw [hlook]
+    unfold succL
+    cases hg : M.getTransition c.state c.tapes with
+    | none => exact ⟨[], rfl, rfl⟩
+    | some l =>
+      obtain ⟨kv, hkv, en, hen, rfl⟩ := M.getTransition_mem hg
+      have hl : ∀ t ∈ en.2, t.2.length = M.nTapes ∧ ∀ m ∈ t.2, m.1 ∈ M.tapeSyms := by
+        intro t ht
+        exact ⟨((M.validate_tapes dom.valid) kv hkv en hen).2 t ht,
+          (M.validate_symbols dom.valid).2 kv hkv en hen t ht⟩
+      obtain ⟨kids, hk1, hk2⟩ := M.spliceEach_encode hd sep dom hc en.2 [] hl
+      refine ⟨kids, ?_, by simpa using hk2⟩
+      simp only [hk1, List.nil_append]
+
+/-- The relation kept between the simulation's generator state and the list-order
+breadth-first search over native configurations. -/
+def SimRel (M : MNTM σ Γ) (st : SimState σ Γ) (st' : MCfg σ Γ × List (MCfg σ Γ)) : Prop :=
+  strip st.1 = encS hd sep st'.1 ∧ st.2.map strip = st'.2.map (encS hd sep) ∧
+  GoodCfg M hd sep st'.1 ∧ ∀ x ∈ st'.2, GoodCfg M hd sep x
+
+theorem simResume_rel (M : MNTM σ Γ) (dom : SimDomain M hd sep) (st : SimState σ Γ)
+    (st' : MCfg σ Γ × List (MCfg σ Γ)) (hR : M.SimRel hd sep st st') :
+    ResumeRel (M.SimRel hd sep) strip (encS hd sep) (simResume M hd sep st)
+      (Q.qres M.succL M.accF st') := by
+  obtain ⟨h1, h2, h3, h4⟩ := hR
+  unfold simResume Q.qres accF
+  rcases M.simProcess_good hd sep dom h3 st.1 h1 with ⟨hf, hp⟩ | ⟨hf, kids, hp, hk⟩
+  · simp [hp, hf, ResumeRel]
+  · simp only [hp, hf, decide_false, Bool.false_eq_true, if_false]
+    have hmap : (st.2 ++ kids).map strip = (st'.2 ++ M.succL st'.1).map (encS hd sep) := by
+      simp [h2, hk]
+    have hgood : ∀ x ∈ st'.2 ++ M.succL st'.1, GoodCfg M hd sep x := by
+      intro x hx
+      rcases List.mem_append.mp hx with h | h
+      · exact h4 x h
+      · exact M.goodCfg_succL hd sep dom h3 x h
+    cases hq : st.2 ++ kids with
+    | nil =>
+      rw [hq] at hmap
+      cases hq' : st'.2 ++ M.succL st'.1 with
+      | nil => simp [Q.rej, ResumeRel]
+      | cons a b => rw [hq'] at hmap; simp at hmap
+    | cons e' r =>
+      rw [hq] at hmap
+      cases hq' : st'.2 ++ M.succL st'.1 with
+      | nil => rw [hq'] at hmap; simp at hmap
+      | cons a b =>
+        rw [hq'] at hmap hgood
+        simp only [List.map_cons, List.cons.injEq] at hmap
+        simp only [ResumeRel]
+        exact ⟨hmap.1, hmap.1, hmap.2, hgood a (by simp), fun x hx => hgood x (by simp [hx])⟩
+
+theorem extOfTapes_eq_encode (ts : List (Tape Γ)) (h : ∀ t ∈ ts, t.pos = 0 ∧ t.WF) :
+    extOfTapes hd sep ts = encode hd sep ts := by
+  induction ts with
+  | nil => rfl
+  | cons t ts ih =>
+    obtain ⟨hp, hw⟩ := h t (by simp)
+    have ih' := ih (fun x hx => h x (by simp [hx]))
+    unfold extOfTapes encode at ih' ⊢
+    simp only [List.flatMap_cons, ih']
+    congr 1
+    unfold Tape.WF at hw
+    unfold encTape
+    cases hc : t.cells with
+    | nil => rw [hc, hp] at hw; simp at hw
+    | cons c rest => simp [hp]
+
+/-- **The simulation is a breadth-first search over encodings**: its yields (state, extended
+tape) are the encodings of the configurations visited by the list-order queue search over
+native configurations, and the two generators stand the same way after any number of calls. -/
+theorem simStepwise_eq (M : MNTM σ Γ) (dom : SimDomain M hd sep) (w : List Γ)
+    (hw : Clean hd sep w) (n : Nat) :
+    (simStepwise M hd sep w n).1.map strip =
+      (Q.qobs M.succL M.accF n [M.initCfg w]).1.map (encS hd sep) ∧
+    (simStepwise M hd sep w n).2 = (Q.qobs M.succL M.accF n [M.initCfg w]).2 := by
+  have hgood := M.goodCfg_init hd sep dom w hw
+  have hext : extOfTapes hd sep (M.initTapes w) = encode hd sep (M.initCfg w).tapes := by
+    apply extOfTapes_eq_encode
+    intro t ht
+    simp only [initTapes, List.mem_cons, List.mem_replicate] at ht
+    rcases ht with rfl | ⟨_, rfl⟩ <;> exact ⟨rfl, Tape.init_wf _ _ _⟩
+  unfold simStepwise
+  rw [← Q.genStart_eq_qobs]
+  cases n with
+  | zero => simp [genStart]
+  | succ n =>
+    simp only [genStart, List.map_cons]
+    have hrel : M.SimRel hd sep ((M.init, extOfTapes hd sep (M.initTapes w), 0), [])
+        (M.initCfg w, []) := by
+      refine ⟨?_, rfl, hgood, fun x hx => by cases hx⟩
+      simp only [strip, encS, hext]
+      rfl
+    obtain ⟨h1, h2⟩ := genRun_sim (simResume M hd sep) (Q.qres M.succL M.accF) (M.SimRel hd sep)
+      strip (encS hd sep) (M.simResume_rel hd sep dom) n _ _ hrel
+    refine ⟨?_, h2⟩
+    rw [h1]
+    simp only [strip, encS, hext]
+    rfl
+
+end MNTM
+
 end AV.TM
